@@ -28,6 +28,35 @@ from lib.core import Stream, cZ, cbool, clist, copt
 warnings.filterwarnings("ignore", category=DeprecationWarning)
 
 BASE = datetime(2022, 1, 1, tzinfo=timezone.utc)
+_CUR = {"base": BASE}    # wall-clock instant of virtual time 0 of the run in progress
+# virtual time 0 of a case ("epoch" key): default, or 30 s before a DST switch of a zone used below
+EPOCHS = {
+    "default": BASE,
+    "berlin_spring": datetime(2022, 3, 27, 0, 59, 30, tzinfo=timezone.utc),    # 02:00 CET -> 03:00 CEST at 01:00 UTC
+    "berlin_autumn": datetime(2022, 10, 30, 0, 59, 30, tzinfo=timezone.utc),   # 03:00 CEST -> 02:00 CET at 01:00 UTC
+    "newyork_autumn": datetime(2022, 11, 6, 5, 59, 30, tzinfo=timezone.utc),   # 02:00 EDT -> 01:00 EST at 06:00 UTC
+    "lordhowe_autumn": datetime(2022, 4, 2, 14, 59, 30, tzinfo=timezone.utc),  # half-hour DST step at 15:00 UTC
+}
+# time zones a component may stamp its messages in (None = UTC); the INSTANT is what the case fixes
+ZONES = [None, "+05:30", "+01:00", "+14:00", "-08:00", "-03:30", "Europe/Berlin", "America/New_York", "Asia/Kolkata",
+         "Australia/Lord_Howe"]
+
+
+def tz_of(name):
+    if name is None:
+        return timezone.utc
+    if name[0] in "+-":
+        sign = 1 if name[0] == "+" else -1
+        hh, mm = name[1:].split(":")
+        return timezone(sign * timedelta(hours=int(hh), minutes=int(mm)))
+    import zoneinfo
+    return zoneinfo.ZoneInfo(name)
+
+
+def stamp(e, now_us):
+    """The message timestamp: the instant (virtual now - age), expressed in the zone the case asks for."""
+    ts = _CUR["base"] + timedelta(microseconds=now_us - e["age"] * 1000)
+    return ts.astimezone(tz_of(e["tz"])) if e.get("tz") else ts
 BATTERY_ID, INVERTER_ID = 9, 8
 DMIN_MS = 1000  # BatteryStatusTracker hard-codes min_duration=1 s (T-tied: min_blocking_duration_us)
 
@@ -75,7 +104,7 @@ def _imports():
 
 
 # ----------------------------------------------------------------------------- virtual time
-def _new_loop(traveller):
+def _new_loop(traveller, base=BASE):
     I = _imports()
     from async_solipsism.clock import Clock
 
@@ -84,7 +113,7 @@ def _new_loop(traveller):
 
         def advance(self, delta):
             super().advance(delta)
-            traveller.move_to(BASE + timedelta(microseconds=self._ticks))
+            traveller.move_to(base + timedelta(microseconds=self._ticks))
 
     loop = I["solipsism"].EventLoop()
     loop._selector.clock = SyncClock()  # pylint: disable=protected-access
@@ -95,15 +124,18 @@ def _now_us(loop) -> int:
     return loop._selector.clock._ticks  # pylint: disable=protected-access
 
 
-def run_virtual(coro_fn):
+def run_virtual(coro_fn, epoch="default"):
     """Run `coro_fn(loop)` on a fresh virtual-time loop with datetime.now() tied to it."""
     I = _imports()
-    with I["tm"].travel(BASE, tick=False) as traveller:
-        loop = _new_loop(traveller)
+    base = EPOCHS[epoch or "default"]
+    with I["tm"].travel(base, tick=False) as traveller:
+        loop = _new_loop(traveller, base)
         asyncio.set_event_loop(loop)
+        _CUR["base"] = base
         try:
             return loop.run_until_complete(coro_fn(loop))
         finally:
+            _CUR["base"] = BASE
             try:
                 pend = [t for t in asyncio.all_tasks(loop) if not t.done()]
                 for t in pend:
@@ -116,25 +148,41 @@ def run_virtual(coro_fn):
 
 
 # ----------------------------------------------------------------------------- message builders
-def mk_battery(e, now_us, cid=BATTERY_ID):
+def mk_battery(e, now_us, cid=BATTERY_ID, rich=False):
     cm = _imports()["cm"]
     nan = math.nan
+    if rich:   # everything the battery manager needs to distribute power
+        errors = [cm.BatteryError(code=cm.BatteryErrorCode.UNSPECIFIED, level=cm.ErrorLevel[l], message="") for l in e["errors"]]
+        return cm.BatteryData(
+            component_id=cid, timestamp=stamp(e, now_us), soc=50.0, soc_lower_bound=10.0, soc_upper_bound=90.0,
+            capacity=(10000.0 if e["cap"] else nan), power_inclusion_lower_bound=-5000.0, power_exclusion_lower_bound=0.0,
+            power_inclusion_upper_bound=5000.0, power_exclusion_upper_bound=0.0, temperature=25.0,
+            relay_state=cm.BatteryRelayState[e["relay"]], component_state=cm.BatteryComponentState[e["state"]], errors=errors)
     errors = [cm.BatteryError(code=cm.BatteryErrorCode.UNSPECIFIED, level=cm.ErrorLevel[l], message="") for l in e["errors"]]
     return cm.BatteryData(
-        component_id=cid, timestamp=BASE + timedelta(microseconds=now_us - e["age"] * 1000),
+        component_id=cid, timestamp=stamp(e, now_us),
         soc=nan, soc_lower_bound=nan, soc_upper_bound=nan, capacity=(1000.0 if e["cap"] else nan),
         power_inclusion_lower_bound=nan, power_exclusion_lower_bound=nan, power_inclusion_upper_bound=nan,
         power_exclusion_upper_bound=nan, temperature=nan, relay_state=cm.BatteryRelayState[e["relay"]],
         component_state=cm.BatteryComponentState[e["state"]], errors=errors)
 
 
-def mk_inverter(e, now_us, cid=INVERTER_ID):
+def mk_inverter(e, now_us, cid=INVERTER_ID, rich=False):
     cm = _imports()["cm"]
     nan = math.nan
+    if rich:
+        errors = [cm.InverterError(code=cm.InverterErrorCode.UNSPECIFIED, level=cm.ErrorLevel[l], message="") for l in e["errors"]]
+        n3 = (nan, nan, nan)
+        return cm.InverterData(
+            component_id=cid, timestamp=stamp(e, now_us), active_power=0.0, active_power_per_phase=n3, reactive_power=nan,
+            reactive_power_per_phase=n3, current_per_phase=n3, voltage_per_phase=n3, active_power_inclusion_lower_bound=-5000.0,
+            active_power_exclusion_lower_bound=0.0, active_power_inclusion_upper_bound=5000.0,
+            active_power_exclusion_upper_bound=0.0, frequency=50.0,
+            component_state=cm.InverterComponentState[e["state"]], errors=errors)
     errors = [cm.InverterError(code=cm.InverterErrorCode.UNSPECIFIED, level=cm.ErrorLevel[l], message="") for l in e["errors"]]
     n3 = (nan, nan, nan)
     return cm.InverterData(
-        component_id=cid, timestamp=BASE + timedelta(microseconds=now_us - e["age"] * 1000),
+        component_id=cid, timestamp=stamp(e, now_us),
         active_power=nan, active_power_per_phase=n3, reactive_power=nan, reactive_power_per_phase=n3,
         current_per_phase=n3, voltage_per_phase=n3, active_power_inclusion_lower_bound=nan,
         active_power_exclusion_lower_bound=nan, active_power_inclusion_upper_bound=nan,
@@ -261,12 +309,12 @@ def run_tracker(case):
                     break
             end = _now_us(loop)
             await tracker.stop()
-            ts0_us = (ts0 - BASE) // timedelta(microseconds=1)
+            ts0_us = (ts0 - _CUR["base"]) // timedelta(microseconds=1)
             return {"log": [list(x) for x in log], "sent_at": sent_at, "end": end, "ts0": ts0_us}
         finally:
             cmgr._CONNECTION_MANAGER = saved  # pylint: disable=protected-access
 
-    return run_virtual(drive)
+    return run_virtual(drive, case.get("epoch"))
 
 
 # ----------------------------------------------------------------------------- Coq rendering
@@ -532,7 +580,30 @@ def gen_ladder(rng, maxlen=40):
     return {"cfg": {"max_age": ma, "dmax": dmax}, "events": ev[:maxlen], "tail": rng.choice([0, 1, ma + 1])}
 
 
+def add_zones(rng, case):
+    """Time-zone dimension: with some probability the components of this case stamp their messages
+    in non-UTC zones (fixed offsets east / west, zoneinfo zones), and the run starts 30 s before a DST
+    switch.  The instants are unchanged, so neither the model nor the oracle is affected."""
+    r = rng.random()
+    if r < 0.55:
+        return case
+    zb, zi = (rng.choice(ZONES[1:]), rng.choice(ZONES)) if r < 0.85 else (None, None)
+    per_message = r >= 0.85
+    for e in case["events"]:
+        if e["t"] in ("bat", "inv"):
+            z = rng.choice(ZONES) if per_message else (zb if e["t"] == "bat" else zi)
+            if z:
+                e["tz"] = z
+    if rng.random() < 0.4:
+        case["epoch"] = rng.choice([k for k in EPOCHS if k != "default"])
+    return case
+
+
 def gen_case(rng, maxlen=40):
+    return add_zones(rng, gen_case_utc(rng, maxlen))
+
+
+def gen_case_utc(rng, maxlen=40):
     if rng.random() < 0.35:
         return gen_ladder(rng, maxlen)
     ma = rng.choice([2000, 5000, 10000, 10000, 30000])
@@ -617,6 +688,12 @@ def boundary_cases():
                 "tail": 6000, "send_delays": [[1, 5000]]})
     # data arriving exactly when the timer fires
     out.append({"cfg": {"max_age": 5000, "dmax": 30000}, "events": [_b(0), _i(0), _b(5000), _i(0), _b(5000, age=5000), _i(0, age=4999)], "tail": 1})
+    # healthy data stamped in non-UTC zones (same instants), then silence: must time out as in UTC
+    for z in ("+05:30", "-08:00", "Europe/Berlin", "Australia/Lord_Howe"):
+        out.append({"cfg": {"max_age": 5000, "dmax": 30000}, "events": [_b(0, tz=z), _i(0, tz=z), _b(1000, tz=z), _i(0, tz=z)], "tail": 12000})
+    out.append({"cfg": {"max_age": 30000, "dmax": 30000}, "epoch": "berlin_autumn",
+                "events": [_b(0, tz="Europe/Berlin"), _i(0, tz="Europe/Berlin"), _b(29000, tz="Europe/Berlin"), _i(0, tz="Europe/Berlin"),
+                           _b(29000, tz="Europe/Berlin"), _i(0, tz="Europe/Berlin", age=29000)], "tail": 31000})
     # component clock ahead of ours (observation: the late-timer filter ignores the real time-out)
     out.append({"cfg": {"max_age": 5000, "dmax": 30000}, "events": [_b(0, age=-3000), _i(0, age=-3000)], "tail": 12000})
     return out
@@ -649,7 +726,13 @@ def shrink_case(case):
         yield {**case, "events": ev[:i] + ev[i + 1:]}
     if case.get("tail"):
         yield {**case, "tail": 0}
+    if case.get("epoch"):
+        yield {k: v for k, v in case.items() if k != "epoch"}
+    if any(e.get("tz") for e in ev):
+        yield {**case, "events": [{k: v for k, v in e.items() if k != "tz"} for e in ev]}
     for i, e in enumerate(ev):
+        if e.get("tz"):
+            yield {**case, "events": ev[:i] + [{k: v for k, v in e.items() if k != "tz"}] + ev[i + 1:]}
         if e["gap"] > 0:
             for g in (0, e["gap"] // 2):
                 if g != e["gap"]:
@@ -707,12 +790,16 @@ class TrackerStream(Stream):
                 out.append(f"{e['t']}_{'healthy' if ok else 'fault_' + why}")
                 if e["age"] < 0:
                     out.append("clock_ahead")
+                if e.get("tz"):
+                    out.append("tz_fixed_east" if e["tz"][0] == "+" else "tz_fixed_west" if e["tz"][0] == "-" else "tz_zoneinfo")
             elif e["t"] == "sp":
                 out.append("sp_" + ("both" if e["succ"] and e["fail"] else "succeeded" if e["succ"] else "failed" if e["fail"] else "not_mentioned"))
             if e["gap"] > ma:
                 out.append("silence_gt_max_age")
         if case.get("send_delays"):
             out.append("blocked_send")
+        if case.get("epoch"):
+            out.append("epoch_dst_switch")
         log = obs["log"]
         for kind, now, idx, sent in log:
             if sent is not None:
@@ -1179,13 +1266,13 @@ def run_e2e(case):
             queries = [sorted(pt.get_working_components(set(q))) for q in case["queries"]]
             watcher.cancel()
             await pt.stop()
-            ts0_us = (ts0 - BASE) // timedelta(microseconds=1)
+            ts0_us = (ts0 - _CUR["base"]) // timedelta(microseconds=1)
             return {"per": {str(b): {"log": [list(x) for x in logs[b]], "sent_at": sent_at[b], "end": end, "ts0": ts0_us} for b in bats},
                     "pool": pool_log, "queries": queries, "end": end, "ts0": ts0_us}
         finally:
             cmgr._CONNECTION_MANAGER = saved  # pylint: disable=protected-access
 
-    return run_virtual(drive)
+    return run_virtual(drive, case.get("epoch"))
 
 
 def snapshots_by_instant(obs):
@@ -1283,7 +1370,8 @@ def gen_e2e_ladder(rng):
             ev.append({"t": "sp", "succ": [target], "fail": [], "gap": 1, "via": "api"})
             k = 0
     queries = [bats, [target], others, [b for b in bats if rng.random() < 0.5] + [77]]
-    return {"cfg": {"max_age": ma, "dmax": dmax}, "bats": bats, "events": ev, "tail": rng.choice([0, 1, ma + 1]), "queries": [sorted(q) for q in queries]}
+    return add_zones(rng, {"cfg": {"max_age": ma, "dmax": dmax}, "bats": bats, "events": ev, "tail": rng.choice([0, 1, ma + 1]),
+                           "queries": [sorted(q) for q in queries]})
 
 
 def gen_e2e_random(rng):
@@ -1367,4 +1455,419 @@ class E2EStream(Stream):
         if any(e["t"] == "sp" and len(e["fail"]) and len(e["fail"]) < len(case["bats"]) for e in case["events"]):
             out.append("failure_for_some_batteries_only")
         out.append(f"pool_messages={min(40, len(obs['pool']) // 10 * 10)}+")
+        return out
+
+
+# ============================================================================= battery-manager stream
+# Set-power outcomes produced by PRODUCTION code: the real BatteryManager (which owns the real
+# ComponentPoolStatusTracker and BatteryStatusTrackers) distributes requests over a fault-injecting
+# fake microgrid API (set_power accepted / rejected / left hanging per inverter and request).  Who is
+# mentioned as succeeded / failed therefore comes from BatteryManager._distribute_power; the oracle
+# knows independently, from the API's call log, which battery was actually commanded and how it went.
+MGR_MAX_AGE_MS, MGR_DMAX_MS = 10000, 30000   # BatteryManager's constants (T-tied: default_max_*_us)
+
+
+def _mgr_imports():
+    I = _imports()
+    if "Manager" not in I:
+        from frequenz.quantities import Power
+        from frequenz.sdk.microgrid._power_distributing._component_managers._battery_manager import BatteryManager
+        from frequenz.sdk.microgrid._power_distributing.request import Request
+        from frequenz.sdk.microgrid.component_graph import _MicrogridComponentGraph
+        I.update(dict(Manager=BatteryManager, Request=Request, Graph=_MicrogridComponentGraph, Power=Power))
+    return I
+
+
+def run_mgr(case):
+    I = _mgr_imports()
+    cm = I["cm"]
+    Receiver = I["Receiver"]
+    codes = {I["Enum"].NOT_WORKING: 0, I["Enum"].UNCERTAIN: 1, I["Enum"].WORKING: 2}
+    bats = case["bats"]
+    inv_of = {b: b - 1 for b in bats}
+    bat_of = {v: k for k, v in inv_of.items()}
+    logs = {b: [] for b in bats}
+    index_of = {b: {} for b in bats}
+    sent_at = {b: [] for b in bats}
+    stim = {b: [] for b in bats}          # ["d", event index] | ["sp", outcome index]
+    outcomes = []                          # one per update_status message the manager produced
+    requests = []                          # one per request: API calls, result type, outcome index
+    pool_log = []
+    notes_log = []                         # every tracker notification, in the order they were sent
+
+    async def drive(loop):
+        import sys
+
+        class Rec(Receiver):
+            def __init__(self, inner, kind, log, idx=None):
+                self.inner, self.kind, self.log, self.idx = inner, kind, log, idx
+
+            async def ready(self):
+                return await self.inner.ready()
+
+            def consume(self):
+                i = None
+                try:
+                    msg = self.inner.consume()
+                    if self.idx is not None:
+                        i = self.idx.get(id(msg))
+                    return msg
+                finally:
+                    self.log.append([self.kind, _now_us(loop), i, None])
+
+            def reset(self, **kw):
+                return self.inner.reset(**kw)
+
+            def close(self):
+                self.inner.close()
+
+        class Forward:
+            def __init__(self, inner, bid):
+                self.inner, self.bid = inner, bid
+
+            async def send(self, msg):
+                log = logs[self.bid]
+                assert msg.component_id == self.bid
+                assert log and log[-1][3] is None
+                log[-1][3] = codes[msg.value]
+                notes_log.append([_now_us(loop), self.bid, codes[msg.value]])
+                await self.inner.send(msg)
+
+        def calling_tracker():
+            """The BatteryStatusTracker on whose behalf the API is being called, if any."""
+            f = sys._getframe(2)  # pylint: disable=protected-access
+            while f is not None:
+                me = f.f_locals.get("self")
+                if isinstance(me, I["Tracker"]):
+                    return me
+                f = f.f_back
+            return None
+
+        chans = {}
+        for b in bats:
+            chans[("bat", b)] = I["Broadcast"](name=f"bat{b}")
+            chans[("inv", b)] = I["Broadcast"](name=f"inv{b}")
+        handed = {b: [] for b in bats}
+        cur = {"plan": {}, "calls": []}
+
+        class Api:
+            async def battery_data(self, cid, maxsize=50):
+                rx = chans[("bat", cid)].new_receiver(limit=500)
+                if calling_tracker() is not None:
+                    handed[cid].append("bat")
+                    return Rec(rx, "bat", logs[cid], index_of[cid])
+                return rx
+
+            async def inverter_data(self, cid, maxsize=50):
+                rx = chans[("inv", bat_of[cid])].new_receiver(limit=500)
+                if calling_tracker() is not None:
+                    handed[bat_of[cid]].append("inv")
+                    return Rec(rx, "inv", logs[bat_of[cid]], index_of[bat_of[cid]])
+                return rx
+
+            async def set_power(self, cid, power_w):
+                how = cur["plan"].get(str(cid), "ok")
+                cur["calls"].append([cid, how])
+                if how == "reject":
+                    raise cm.ApiClientError(server_url="fake://microgrid", operation="set_power",
+                                            description="injected failure", retryable=False)
+                if how == "hang":
+                    await asyncio.sleep(3600)
+
+        comps = {cm.Component(1, cm.ComponentCategory.GRID)}
+        conns = set()
+        for b in bats:
+            comps.add(cm.Component(inv_of[b], cm.ComponentCategory.INVERTER, cm.InverterType.BATTERY))
+            comps.add(cm.Component(b, cm.ComponentCategory.BATTERY))
+            conns.add(cm.Connection(1, inv_of[b]))
+            conns.add(cm.Connection(inv_of[b], b))
+        cmgr = I["connection_manager"]
+        saved = cmgr._CONNECTION_MANAGER  # pylint: disable=protected-access
+        cmgr._CONNECTION_MANAGER = SimpleNamespace(component_graph=I["Graph"](components=comps, connections=conns), api_client=Api())
+        try:
+            pool_ch = I["Broadcast"](name="pool")
+            pool_rx = pool_ch.new_receiver(limit=5000)
+            res_ch = I["Broadcast"](name="results")
+            res_rx = res_ch.new_receiver(limit=5000)
+            mgr = I["Manager"](component_pool_status_sender=pool_ch.new_sender(), results_sender=res_ch.new_sender(),
+                               api_power_request_timeout=timedelta(seconds=2.0))
+            pt = mgr._component_pool_status_tracker  # pylint: disable=protected-access
+            trackers = {t.battery_id: t for t in pt._component_status_trackers}  # pylint: disable=protected-access
+            assert sorted(trackers) == sorted(bats)
+            ts0 = None
+            for b, t in trackers.items():
+                ts0 = t._battery.last_msg_timestamp  # pylint: disable=protected-access
+                t._battery.data_recv_timer = Rec(t._battery.data_recv_timer, "bt", logs[b])  # pylint: disable=protected-access
+                t._inverter.data_recv_timer = Rec(t._inverter.data_recv_timer, "it", logs[b])  # pylint: disable=protected-access
+                t._set_power_result_receiver = Rec(t._set_power_result_receiver, "sp", logs[b], index_of[b])  # pylint: disable=protected-access
+                t._status_sender = Forward(t._status_sender, b)  # pylint: disable=protected-access
+            # what the manager tells the pool, as it leaves the manager
+            sp_sender = pt._set_power_result_sender  # pylint: disable=protected-access
+            orig_send = sp_sender.send
+
+            async def spy(msg):
+                now = _now_us(loop)
+                outcomes.append({"at": now, "succeeded": sorted(msg.succeeded), "failed": sorted(msg.failed)})
+                for b in bats:
+                    index_of[b][id(msg)] = len(sent_at[b])
+                    sent_at[b].append(now)
+                    stim[b].append(["sp", len(outcomes) - 1])
+                keep.append(msg)
+                await orig_send(msg)
+            sp_sender.send = spy
+            keep = []
+
+            async def watch_pool():
+                async for st in pool_rx:
+                    pool_log.append([_now_us(loop), sorted(st.working), sorted(st.uncertain)])
+            watcher = asyncio.create_task(watch_pool())
+            await mgr.start()
+            for _ in range(200):   # every tracker has subscribed to its two data streams
+                if all(sorted(handed[b]) == ["bat", "inv"] for b in bats):
+                    break
+                await asyncio.sleep(0)
+            tx = {k: ch.new_sender() for k, ch in chans.items()}
+            for n, e in enumerate(case["events"]):
+                await asyncio.sleep(e["gap"] / 1000)
+                now = _now_us(loop)
+                if e["t"] in ("bat", "inv"):
+                    b = e["b"]
+                    m = mk_battery(e, now, b, rich=True) if e["t"] == "bat" else mk_inverter(e, now, inv_of[b], rich=True)
+                    keep.append(m)
+                    index_of[b][id(m)] = len(sent_at[b])
+                    sent_at[b].append(now)
+                    stim[b].append(["d", n])
+                    await tx[(e["t"], b)].send(m)
+                elif e["t"] == "req":
+                    for _ in range(30):      # the trackers and the manager's caches have seen everything sent so far
+                        await asyncio.sleep(0)
+                    cur["plan"], cur["calls"] = dict(e.get("plan", {})), []
+                    n_out = len(outcomes)
+                    n_notes = len(notes_log)
+                    usable = sorted(pt.get_working_components(set(e["ids"])))
+                    await mgr.distribute_power(I["Request"](power=I["Power"].from_watts(float(e["power"])), component_ids=set(e["ids"])))
+                    res = await asyncio.wait_for(res_rx.receive(), 1.0)
+                    requests.append({"event": n, "at": now, "done": _now_us(loop), "notes_before": n_notes, "ids": sorted(e["ids"]), "usable_before": usable,
+                                     "calls": sorted(cur["calls"]), "result": type(res).__name__,
+                                     "outcome": n_out if len(outcomes) > n_out else None})
+                    assert len(outcomes) <= n_out + 1
+            await asyncio.sleep(case.get("tail", 0) / 1000)
+            n_stim = {b: len(sent_at[b]) for b in bats}
+            for it in range(1500):
+                await asyncio.sleep(0)
+                if it >= 20 and all(sum(1 for x in logs[b] if x[0] in ("bat", "inv", "sp")) == n_stim[b] for b in bats) \
+                        and len(pool_log) == sum(1 for b in bats for x in logs[b] if x[3] is not None):
+                    break
+            end = _now_us(loop)
+            watcher.cancel()
+            del sp_sender.send
+            await mgr.stop()
+            ts0_us = (ts0 - _CUR["base"]) // timedelta(microseconds=1)
+            return {"per": {str(b): {"log": [list(x) for x in logs[b]], "sent_at": sent_at[b], "stim": stim[b], "end": end, "ts0": ts0_us}
+                            for b in bats},
+                    "handed": {str(b): sorted(handed[b]) for b in bats},
+                    "outcomes": outcomes, "requests": requests, "pool": pool_log, "notes": notes_log, "end": end, "ts0": ts0_us}
+        finally:
+            cmgr._CONNECTION_MANAGER = saved  # pylint: disable=protected-access
+
+    return run_virtual(drive, case.get("epoch"))
+
+
+def mgr_truth(case, obs):
+    """Per outcome message: which batteries were really commanded, and how it went (from the fake
+    API's call log, not from what the manager reported)."""
+    truth = {}
+    for r in obs["requests"]:
+        if r["outcome"] is None:
+            continue
+        ok = sorted(c + 1 for c, how in r["calls"] if how == "ok")
+        bad = sorted(c + 1 for c, how in r["calls"] if how != "ok")
+        truth[r["outcome"]] = {"succeeded": ok, "failed": bad, "request": r}
+    return truth
+
+
+def mgr_sub_case(case, obs, bid, source):
+    """History of one battery; set-power outcomes as REPORTED by the manager (source="reported",
+    what the tracker saw: for the model) or as they really happened (source="truth": for the oracle)."""
+    truth = mgr_truth(case, obs)
+    ev = []
+    for kind, k in obs["per"][str(bid)]["stim"]:
+        if kind == "d":
+            ev.append({x: y for x, y in case["events"][k].items() if x != "b"})
+        else:
+            o = obs["outcomes"][k] if source == "reported" else truth[k]
+            ev.append({"t": "sp", "gap": 0, "succ": bid in o["succeeded"], "fail": bid in o["failed"]})
+    return {"cfg": {"max_age": MGR_MAX_AGE_MS, "dmax": MGR_DMAX_MS}, "events": ev, "tail": case.get("tail", 0)}
+
+
+def judge_mgr(case, obs):
+    out = []
+    truth = mgr_truth(case, obs)
+    for b in case["bats"]:
+        if obs["handed"][str(b)] != ["bat", "inv"]:
+            out.append({"what": f"harness: tracker of battery {b} asked the API for {obs['handed'][str(b)]}", "finding": None})
+    # (1) who is mentioned: exactly the commanded batteries, with the outcome of their own command
+    for k, o in enumerate(obs["outcomes"]):
+        t = truth.get(k)
+        if t is None:
+            out.append({"what": f"mention: outcome message #{k} {o} does not belong to any request", "finding": None})
+            continue
+        r = t["request"]
+        if o["succeeded"] != t["succeeded"] or o["failed"] != t["failed"]:
+            extra = sorted((set(o["succeeded"]) | set(o["failed"])) - set(t["succeeded"]) - set(t["failed"]))
+            out.append({"what": f"mention: request #{r['event']} named {r['ids']} (usable before: {r['usable_before']}); set_power calls "
+                                f"{[[c, how] for c, how in r['calls']]} => commanded ok {t['succeeded']}, failed {t['failed']}; but the manager "
+                                f"reported succeeded={o['succeeded']} failed={o['failed']}"
+                                + (f" -- batteries {extra} received no command and must not be mentioned" if extra else ""), "finding": None})
+    # (2) the statuses, judged against what really happened to each battery
+    notes = []
+    for b in case["bats"]:
+        so = obs["per"][str(b)]
+        for v in judge_tracker(mgr_sub_case(case, obs, b, "truth"), so):
+            out.append({"what": v["what"].split(":")[0] + f": [battery {b} behind the real BatteryManager; outcomes judged by the commands the API "
+                                f"actually received]" + v["what"].split(":", 1)[1], "finding": None})
+        for kind, now, idx, sent in so["log"]:
+            if sent is not None:
+                notes.append((now, b, sent))
+    if len(obs["pool"]) != len(notes):
+        out.append({"what": f"pool: {len(notes)} tracker notifications but {len(obs['pool'])} pool status messages", "finding": None})
+    # (3) a battery the pool reports neither working nor uncertain is never commanded; uncertain ones only as fallback
+    for r in obs["requests"]:
+        latest = {}
+        for now, b, s in obs["notes"][:r["notes_before"]]:
+            latest[b] = s
+        commanded = sorted(c + 1 for c, _ in r["calls"])
+        working = [b for b in r["ids"] if latest.get(b) == 2]
+        allowed = working if working else [b for b in r["ids"] if latest.get(b) == 1]
+        if not set(commanded) <= set(allowed):
+            out.append({"what": f"pool: request #{r['event']} for {r['ids']} commanded {commanded} while the trackers' latest statuses were "
+                                f"{sorted(latest.items())} (allowed: {allowed})", "finding": None})
+    return out
+
+
+def mgr_term(case, obs):
+    bats = []
+    for b in case["bats"]:
+        sc, so = mgr_sub_case(case, obs, b, "reported"), obs["per"][str(b)]
+        tr = "[" + "; ".join(c_event(sc, x, so) for x in so["log"]) + "]"
+        exp = clist([x[3] for x in so["log"]], copt)
+        bats.append(f"({cZ(b)}, {tr}, {exp})")
+    snaps = "[" + "; ".join(f"({cZ(t)}, {clist(w)}, {clist(u)})" for t, w, u in snapshots_by_instant(obs)) + "]"
+    return (f"((({cZ(MGR_MAX_AGE_MS * 1000)}, {cZ(MGR_DMAX_MS * 1000)}), {cZ(obs['ts0'])}, "
+            f"[{'; '.join(bats)}], {snaps}, []) : case_t)")
+
+
+def gen_mgr(rng):
+    """Periodic requests naming (mostly) the whole pool while healthy data keep flowing; per request
+    each inverter's set_power is accepted / rejected / left hanging.  Inverters are 'flaky' for a
+    while so that consecutive failures of one battery (1, 2, 4, 8 s ...) interleave with requests
+    that the other batteries serve alone."""
+    bats = rng.choice([[9, 19], [9, 19], [9, 19, 29]])
+    step = rng.choice([250, 500, 500, 1000])
+    n_steps = rng.randint(8, 60)
+    broken = {b: False for b in bats}
+    p_break = rng.choice([0.05, 0.15, 0.3])
+    p_heal = rng.choice([0.0, 0.05, 0.3])
+    if rng.random() < 0.5:
+        broken[rng.choice(bats)] = True
+    ev = []
+    gap = 0
+    for s in range(n_steps):
+        for b in bats:
+            fault_b = rng.choice(["stale", "state", "relay", "critical", "capacity"]) if rng.random() < 0.01 else None
+            if rng.random() < 0.97:
+                ev.append({**gen_bat(rng, MGR_MAX_AGE_MS, fault_b), "age": 0 if not fault_b == "stale" else MGR_MAX_AGE_MS + 1, "b": b, "gap": gap})
+                gap = 0
+            if rng.random() < 0.97:
+                ev.append({**gen_inv(rng, MGR_MAX_AGE_MS), "age": 0, "b": b, "gap": gap})
+                gap = 0
+        for b in bats:
+            if broken[b] and rng.random() < p_heal:
+                broken[b] = False
+            elif not broken[b] and rng.random() < p_break:
+                broken[b] = True
+        if s >= 1 and rng.random() < 0.8:
+            ids = bats if rng.random() < 0.8 else sorted(rng.sample(bats, rng.randint(1, len(bats))))
+            plan = {str(b - 1): ("hang" if rng.random() < 0.04 else "reject") for b in bats if broken[b]}
+            ev.append({"t": "req", "ids": ids, "power": rng.choice([1000, 1000, -1000, 3000, 0, 20000]), "plan": plan, "gap": gap + rng.choice([0, 1, 10])})
+            gap = 0
+        gap += step
+    return add_zones(rng, {"bats": bats, "events": ev, "tail": rng.choice([0, 1, 500])})
+
+
+def mgr_boundary_cases():
+    """Inverter 8 rejects everything; the same request {9,19} every 0.5 s; data every 0.5 s."""
+    out = []
+    for bats in ([9, 19], [9, 19, 29]):
+        ev = []
+        for s in range(40):
+            g = 500 if s else 0
+            for b in bats:
+                ev.append({**_b(g), "b": b})
+                g = 0
+                ev.append({**_i(0), "b": b})
+            if s >= 2:
+                ev.append({"t": "req", "ids": bats, "power": 1000, "plan": {"8": "reject"}, "gap": 10})
+        out.append({"bats": bats, "events": ev, "tail": 0})
+    return out
+
+
+class ManagerStream(Stream):
+    name = "manager"
+    coq_header = E2E_HEADER
+
+    def gen(self, rng, tier):
+        yield from mgr_boundary_cases()
+        for _ in range(60 if tier == "quick" else 1200):
+            yield gen_mgr(rng)
+
+    def run_impl(self, case):
+        return run_mgr(case)
+
+    def to_coq(self, case, obs):
+        return mgr_term(case, obs)
+
+    def oracle(self, case, obs):
+        return judge_mgr(case, obs)
+
+    def shrink(self, case):
+        ev = case["events"]
+        n = len(ev)
+        for cut in (n // 2, n - n // 4, n - 8, n - 2, n - 1):     # shortest failing prefix first
+            if 0 < cut < n:
+                yield {**case, "events": ev[:cut]}
+        idx = [i for i, e in enumerate(ev) if e["t"] == "req"]
+        for i in idx:
+            rest = ev[:i] + ([{**ev[i + 1], "gap": ev[i + 1]["gap"] + ev[i]["gap"]}] + ev[i + 2:] if i + 1 < n else [])
+            yield {**case, "events": rest}
+        if case.get("epoch"):
+            yield {k: v for k, v in case.items() if k != "epoch"}
+        if any(e.get("tz") for e in ev):
+            yield {**case, "events": [{k: v for k, v in e.items() if k != "tz"} for e in ev]}
+
+    def key(self, case, obs):
+        if not obs["requests"]:
+            return None
+        return json.dumps([case["bats"], obs["requests"], [[k, v["log"]] for k, v in sorted(obs["per"].items())]], sort_keys=True)
+
+    def labels(self, case, obs):
+        out = [f"batteries={len(case['bats'])}"]
+        truth = mgr_truth(case, obs)
+        for r in obs["requests"]:
+            out.append("result_" + r["result"])
+            if r["outcome"] is not None:
+                t = truth[r["outcome"]]
+                named_not_commanded = set(r["ids"]) - set(t["succeeded"]) - set(t["failed"])
+                if named_not_commanded:
+                    out.append("request_names_uncommanded_battery")
+                    if not t["failed"]:
+                        out.append("served_by_others_while_one_blocked")
+                if t["failed"] and t["succeeded"]:
+                    out.append("partial_failure")
+                if any(how == "hang" for _, how in r["calls"]):
+                    out.append("set_power_timeout")
+        for b in case["bats"]:
+            stats = {}
+            judge_tracker(mgr_sub_case(case, obs, b, "truth"), obs["per"][str(b)], stats)
+            out.append(f"backoff_depth={min(stats['max_k'], 7)}")
         return out
